@@ -245,36 +245,44 @@ func (e *Engine) decideBranch(c *Term) bool {
 		}
 		e.live = true
 		if d.cur == 0 && !d.onlyFirst() {
+			// the false side was found feasible when the decision was created
 			d.cur = 1
 			e.solver.Push()
 			e.solver.Assert(alts[1])
-			if e.check("feas") != Unsat {
-				e.di++
-				return false
-			}
-			e.solver.Pop(1)
+			e.di++
+			return false
 		}
 		e.trail = e.trail[:e.di]
 		e.infeasiblePath("branch exhausted")
 	}
-	// new decision: try true, then false
-	e.stats.FeasQueries++
+	// new decision: probe both sides now, so that an infeasible sibling never
+	// costs a re-execution
+	e.stats.FeasQueries += 2
 	e.solver.Push()
 	e.solver.Assert(alts[0])
-	r := e.check("feas")
-	if r != Unsat {
-		d := &decision{kind: "branch", n: 2, cur: 0}
-		e.trail = append(e.trail, d)
-		e.di++
-		e.noteFork("branch")
-		return true
-	}
+	r1 := e.check("feas")
 	e.solver.Pop(1)
-	// true side infeasible: the false side must hold (pc is satisfiable)
-	d := &decision{kind: "branch", n: 1, cur: 1}
-	e.trail = append(e.trail, d)
 	e.solver.Push()
 	e.solver.Assert(alts[1])
+	r2 := e.check("feas")
+	if r1 != Unsat {
+		e.solver.Pop(1)
+		d := &decision{kind: "branch", n: 2, cur: 0}
+		if r2 == Unsat {
+			d.n = 1
+		}
+		e.trail = append(e.trail, d)
+		e.solver.Push()
+		e.solver.Assert(alts[0])
+		e.di++
+		if d.n == 2 {
+			e.noteFork("branch")
+		}
+		return true
+	}
+	// true side infeasible: the false side must hold (pc is satisfiable); level stays pushed
+	d := &decision{kind: "branch", n: 1, cur: 1}
+	e.trail = append(e.trail, d)
 	e.di++
 	return false
 }
@@ -370,6 +378,15 @@ func (e *Engine) concretizeTerm(t *Term, what string) *big.Int {
 		}
 	}
 	d.vals = append(d.vals, v.Int64())
+	// are there further values? (saves a re-execution that would only find none)
+	e.solver.Assert(e.ts.Not(e.ts.Eq(t, mkConst(v))))
+	e.stats.FeasQueries++
+	more := e.solver.Check()
+	e.solver.Pop(1)
+	if more == Unsat {
+		d.n = len(d.vals)
+	}
+	e.solver.Push()
 	e.solver.Assert(e.ts.Eq(t, mkConst(v)))
 	e.di++
 	return v
@@ -755,7 +772,7 @@ func (e *Engine) backtrack() bool {
 		case "branch":
 			exhausted = d.cur == 1 || d.n == 1
 		case "value":
-			exhausted = false // discovered lazily
+			exhausted = d.n >= 0 && len(d.vals) >= d.n
 		default:
 			exhausted = d.cur >= d.n-1
 		}
